@@ -312,7 +312,7 @@ class OutputTemplate:
         if has_deprecated:
             imports.add("warnings")
 
-        if self.builtins_import:
+        if self.builtins_import or any(m.builtins_types for m in self.messages):
             imports.add("builtins")
         return imports
 
@@ -424,6 +424,12 @@ class FieldCompiler(MessageCompiler):
     def __post_init__(self) -> None:
         # Add field to message
         self.parent.fields.append(self)
+        # A field named like a builtin type shadows that type in the annotations of
+        # the other fields of the class (they are written `builtins.<type>`), so the
+        # module needs `import builtins`: register the name before the imports are
+        # decided, not only when the field is rendered.
+        if self.py_name in dir(builtins):
+            self.parent.builtins_types.add(self.py_name)
         # Check for new imports
         self.add_imports_to(self.output_file)
         super().__post_init__()  # call FieldCompiler-> MessageCompiler __post_init__
@@ -629,7 +635,12 @@ class MapEntryCompiler(FieldCompiler):
 
     @property
     def annotation(self) -> str:
-        return self.typing_compiler.dict(self.py_k_type, self.py_v_type)
+        # key / value types shadowed by a field named like them (e.g. `str`)
+        k_type, v_type = (
+            f"builtins.{t}" if t in self.parent.builtins_types else t
+            for t in (self.py_k_type, self.py_v_type)
+        )
+        return self.typing_compiler.dict(k_type, v_type)
 
     @property
     def repeated(self) -> bool:
